@@ -2,7 +2,7 @@
 (binary values are base64 on the wire and come back as the original bytes, padded or not), typed accessors and the iterator
 never cross the partition, insert/append keep per-key order.  Carries C08."""
 from vxlib import Unit, Clause
-from units import common
+from units import common, mdentry
 
 EN = 'tonic/src/metadata/encoding.rs'
 KY = 'tonic/src/metadata/key.rs'
@@ -10,7 +10,8 @@ VL = 'tonic/src/metadata/value.rs'
 MP = 'tonic/src/metadata/map.rs'
 
 TRAITS = r'''
-// `-bin` suffix: the partition of metadata keys stated by the gRPC spec and the property
+// `-bin` suffix: the partition of metadata keys stated by the gRPC spec and the property.  A key given as text denotes the
+// entry stored under its lower-case form (header names are case-insensitive), so its side is that of the lower-case form
 pub open spec fn ends_with_spec(s: Seq<char>, p: Seq<char>) -> bool { s.len() >= p.len() && s.skip(s.len() - p.len()) == p }
 pub open spec fn is_bin_key(k: Seq<char>) -> bool { ends_with_spec(k, "-bin"@) }
 // A-std-str-03 (R17): str::ends_with(&str) (generic over the unstable Pattern trait, so it is called through this shim)
@@ -42,6 +43,8 @@ pub mod value_encoding {
 }
 pub trait ValueEncoding: value_encoding::Sealed {
     spec fn valid_key(key: Seq<char>) -> bool;
+    // the side of a key does not depend on how its letters are cased (each encoding proves it of its own rule)
+    proof fn law_case(key: Seq<char>) ensures Self::valid_key(key) == Self::valid_key(lower(key));
     fn is_valid_key(key: &str) -> (r: bool) ensures r == Self::valid_key(key@);
 }
 impl HeaderValue {
@@ -68,6 +71,21 @@ impl Bytes {
     pub fn as_ref(&self) -> (r: &[u8]) ensures r@ == self@ { unimplemented!() }
 }
 pub use core::marker::PhantomData;
+// the byte-level suffix test of Binary::is_valid_key
+pub open spec fn lower_byte(b: u8) -> u8 { if 65 <= b && b <= 90 { (b + 32) as u8 } else { b } }
+pub open spec fn lower_bytes(s: Seq<u8>) -> Seq<u8> { s.map_values(|b: u8| lower_byte(b)) }
+// A-core-41: <[u8]>::eq_ignore_ascii_case: equal after ASCII lower-casing of both sides
+pub assume_specification[ <[u8]>::eq_ignore_ascii_case ](a: &[u8], b: &[u8]) -> (r: bool)
+    ensures r == (lower_bytes(a@) == lower_bytes(b@));
+// R15: a byte-string literal (A-lit-01: its bytes are those of the ASCII text)
+#[verifier::external_body]
+pub fn verif_bytes_lit(s: &'static str) -> (r: &'static [u8]) ensures r@ == ascii_bytes(s@) { unimplemented!() }
+// A-utf8-01: UTF-8 is self-synchronising (an ASCII byte never occurs inside a multi-byte character): the encoding of a text
+// ends with the bytes of an ASCII word, compared ignoring ASCII case, exactly when the text ends with that word ignoring case
+pub axiom fn axiom_ascii_suffix_utf8(s: Seq<char>, w: Seq<char>)
+    requires forall|i: int| 0 <= i < w.len() ==> (#[trigger] w[i] as u32) < 128
+    ensures ({ let b = vstd::utf8::encode_utf8(s); let wb = ascii_bytes(w);
+        (b.len() >= wb.len() && lower_bytes(b.skip(b.len() - wb.len())) == lower_bytes(wb)) <==> ends_with_spec(lower(s), lower(w)) });
 '''
 
 KEYSPEC = r'''
@@ -126,7 +144,7 @@ impl<'a> HIterMut<'a> {
 impl<VE: ValueEncoding> MetadataValue<VE> {
     // A-tonic-unsafe-01 (as for the shared-reference twin): the repr(transparent) cast of a mutable header value
     #[verifier::external_body]
-    pub fn unchecked_from_mut_header_value_ref(header_value: &mut HeaderValue) -> (r: &mut Self) ensures (*r).inner@ == (*old(header_value))@ { unimplemented!() }
+    pub fn unchecked_from_mut_header_value_ref(header_value: &mut HeaderValue) -> (r: &mut Self) ensures (*r).inner@ == (*old(header_value))@, (*final(header_value))@ == (*final(r)).inner@ { unimplemented!() }
 }
 impl<'a> HGetAll<'a> {
     #[verifier::external_body]
@@ -144,28 +162,37 @@ pub mod as_metadata_key {
     use crate::*;
     // declared with its spec function; `key_name` is the header name the key denotes
     pub trait Sealed<VE: ValueEncoding>: Sized {
+        // the (lower-case) name the key denotes; whether the key passes the check made for it; the representation invariant
+        // of a typed key (a MetadataKey<VE> holds a name of VE's side: established by every public constructor, K1 / K3)
         spec fn key_name(&self) -> Seq<char>;
         spec fn key_ok(&self) -> bool;
+        spec fn key_inv(&self) -> bool;
         fn get(self, map: &MetadataMap) -> (r: Option<&MetadataValue<VE>>)
+            requires self.key_inv()
             ensures
-                r is Some ==> self.key_ok() && map.headers@.contains_key(self.key_name()),
+                r is Some ==> self.key_ok() && VE::valid_key(self.key_name()) && map.headers@.contains_key(self.key_name()),
                 r matches Some(v) ==> v.inner@ == map.headers@[self.key_name()][0],
                 r is None ==> !self.key_ok() || !map.headers@.contains_key(self.key_name());
         fn remove(self, map: &mut MetadataMap) -> (r: Option<MetadataValue<VE>>)
+            requires self.key_inv()
             ensures
                 self.key_ok() ==> final(map).headers@ == old(map).headers@.remove(self.key_name()),
-                !self.key_ok() ==> final(map).headers@ == old(map).headers@ && r is None;
+                !self.key_ok() ==> final(map).headers@ == old(map).headers@ && r is None,
+                !VE::valid_key(self.key_name()) ==> final(map).headers@ == old(map).headers@ && r is None;
         fn get_mut(self, map: &mut MetadataMap) -> (r: Option<&mut MetadataValue<VE>>)
+            requires self.key_inv()
             ensures
-                r is Some ==> self.key_ok() && old(map).headers@.contains_key(self.key_name()),
+                r is Some ==> self.key_ok() && VE::valid_key(self.key_name()) && old(map).headers@.contains_key(self.key_name()),
                 r matches Some(v) ==> (*v).inner@ == old(map).headers@[self.key_name()][0],
                 r is None ==> !self.key_ok() || !old(map).headers@.contains_key(self.key_name());
         // every value of the name, in order - and only for a key of this side of the partition
         fn get_all(self, map: &MetadataMap) -> (r: Option<HGetAll<'_>>)
+            requires self.key_inv()
             ensures
                 r is Some <==> self.key_ok(),
+                r is Some ==> VE::valid_key(self.key_name()),
                 r matches Some(g) ==> g.vals@ == values_at(map.headers@, self.key_name());
-    }
+__TRAIT_ENTRY__    }
     pub trait AsMetadataKey<VE: ValueEncoding>: Sealed<VE> {}
 }
 pub mod into_metadata_key {
@@ -203,8 +230,8 @@ pub struct Keys<'a> { pub inner: HKeys<'a> }
 
 def build():
     u = Unit('metadata', ['C08'])
-    common.http_base(u)
-    common.metadata_core(u)
+    common.http_base(u, fold_case=True)
+    common.metadata_core(u, fold_case=True)
     u.raw(TRAITS)
     # R18: uninhabited marker enums (`enum Ascii {}`) become unit structs: they are only used at the type level
     mk = [lambda t: t.sub_code('R18', r'\benum\b', 'struct')]
@@ -227,13 +254,17 @@ def build():
     u.fn(EN, 'decode', within='impl self::value_encoding::Sealed for Binary',
          closures={0: dict(params='bytes_vec: Vec<u8>', ret='(x: Bytes)', ensures=['x@ == bytes_vec@'])})
     u.close('}')
-    u._emit('impl ValueEncoding for Ascii {\n    open spec fn valid_key(key: Seq<char>) -> bool { !is_bin_key(key) }')
+    u._emit('impl ValueEncoding for Ascii {\n    open spec fn valid_key(key: Seq<char>) -> bool { !is_bin_key(lower(key)) }\n    proof fn law_case(key: Seq<char>) { broadcast use case_facts::lemma_lower_idem; }')
     u._open_header = 'impl ValueEncoding for Ascii {'
-    u.fn(EN, 'is_valid_key', within='impl ValueEncoding for Ascii', body_edits=ew)
+    u.fn(EN, 'is_valid_key', within='impl ValueEncoding for Ascii', body_edits=ew,
+         ensures=[Clause('E0_a_key_is_ascii_exactly_when_it_is_not_binary', 'r == Self::valid_key(key@)')])
     u.close('}')
-    u._emit('impl ValueEncoding for Binary {\n    open spec fn valid_key(key: Seq<char>) -> bool { is_bin_key(key) }')
+    u._emit('impl ValueEncoding for Binary {\n    open spec fn valid_key(key: Seq<char>) -> bool { is_bin_key(lower(key)) }\n    proof fn law_case(key: Seq<char>) { broadcast use case_facts::lemma_lower_idem; }')
     u._open_header = 'impl ValueEncoding for Binary {'
-    u.fn(EN, 'is_valid_key', within='impl ValueEncoding for Binary', body_edits=ew)
+    u.fn(EN, 'is_valid_key', within='impl ValueEncoding for Binary',
+         body_edits=ew + [lambda t: t.sub_code('R15', r'b"([a-z-]+)"', r'verif_bytes_lit("\1")')],
+         body_start='        proof { reveal_strlit("-bin"); assert(lower("-bin"@) =~= "-bin"@); axiom_ascii_suffix_utf8(key@, "-bin"@); assert(ascii_bytes("-bin"@).len() == 4); }',
+         ensures=[Clause('E1_a_key_is_binary_exactly_when_its_lower_case_form_ends_in_bin', 'r == Self::valid_key(key@)')])
     u.close('}')
 
     # ---- key.rs / value.rs ----
@@ -261,11 +292,13 @@ def build():
          ensures=[Clause('V3_wire_form_is_the_encoding', 'r matches Ok(v) ==> v.inner@ == VE::enc(src@)'), Clause('V4_ok_iff_legal', 'r is Ok <==> legal_value(VE::enc(src@))')])
 
     # ---- map.rs: sealed key traits, typed accessors, iterator ----
-    u.raw(MAPSHIM)
+    u.raw(MAPSHIM.replace('__TRAIT_ENTRY__', mdentry.TRAIT_ENTRY))
+    mdentry.structs(u)
     get_post = []
     u._emit('''impl<VE: ValueEncoding> as_metadata_key::Sealed<VE> for &str {
-    open spec fn key_name(&self) -> Seq<char> { self@ }
-    open spec fn key_ok(&self) -> bool { VE::valid_key(self@) }''')
+    open spec fn key_name(&self) -> Seq<char> { lower(self@) }
+    open spec fn key_ok(&self) -> bool { VE::valid_key(self@) }
+    open spec fn key_inv(&self) -> bool { true }''')
     u._open_header = 'impl<VE: ValueEncoding> as_metadata_key::Sealed<VE> for &str {'
     cl_mut = {0: dict(params='e: &mut HeaderValue', ret='(x: &mut MetadataValue<VE>)', ensures=['(*x).inner@ == (*old(e))@'])}
     r3mut = [lambda t: t.sub_code('R3', r'\.map\(MetadataValue::unchecked_from_mut_header_value_ref\)', '.map(|e| MetadataValue::unchecked_from_mut_header_value_ref(e))')]
@@ -275,20 +308,23 @@ def build():
     r3ref = [lambda t: t.sub_code('R3', r'\.map\(MetadataValue::unchecked_from_header_value_ref\)', '.map(|e| MetadataValue::unchecked_from_header_value_ref(e))')]
     r3val = [lambda t: t.sub_code('R3', r'\.map\(MetadataValue::unchecked_from_header_value\)', '.map(|e| MetadataValue::unchecked_from_header_value(e))')]
     W = 'impl<VE: ValueEncoding> Sealed<VE> for &str'
-    u.fn(MP, 'get', within=W, nth=0, body_edits=r3ref, closures=cl_ref, display='as_metadata_key::Sealed for &str::get')
-    u.fn(MP, 'remove', within=W, nth=0, body_edits=r3val, closures=cl_val, display='as_metadata_key::Sealed for &str::remove')
-    u.fn(MP, 'get_all', within=W, nth=0, sig_edits=ga, display='as_metadata_key::Sealed for &str::get_all')
-    u.fn(MP, 'get_mut', within=W, nth=0, body_edits=r3mut, closures=cl_mut, display='as_metadata_key::Sealed for &str::get_mut')
+    u.fn(MP, 'get', within=W, nth=0, body_edits=r3ref, closures=cl_ref, body_start='        proof { VE::law_case(self@); }', display='as_metadata_key::Sealed for &str::get')
+    u.fn(MP, 'remove', within=W, nth=0, body_edits=r3val, closures=cl_val, body_start='        proof { VE::law_case(self@); }', display='as_metadata_key::Sealed for &str::remove')
+    u.fn(MP, 'get_all', within=W, nth=0, sig_edits=ga, body_start='        proof { VE::law_case(self@); }', display='as_metadata_key::Sealed for &str::get_all')
+    u.fn(MP, 'get_mut', within=W, nth=0, body_edits=r3mut, closures=cl_mut, body_start='        proof { VE::law_case(self@); }', display='as_metadata_key::Sealed for &str::get_mut')
+    mdentry.entry_fn(u, W, '&str', True)
     u.close('}')
     u._emit('''impl<VE: ValueEncoding> as_metadata_key::Sealed<VE> for MetadataKey<VE> {
     open spec fn key_name(&self) -> Seq<char> { self.inner@ }
-    open spec fn key_ok(&self) -> bool { true }''')
+    open spec fn key_ok(&self) -> bool { true }
+    open spec fn key_inv(&self) -> bool { self.wf() }''')
     u._open_header = 'impl<VE: ValueEncoding> as_metadata_key::Sealed<VE> for MetadataKey<VE> {'
     WK = 'impl<VE: ValueEncoding> Sealed<VE> for MetadataKey<VE>'
     u.fn(MP, 'get', within=WK, nth=0, body_edits=r3ref, closures=cl_ref, display='as_metadata_key::Sealed for MetadataKey::get')
     u.fn(MP, 'remove', within=WK, nth=0, body_edits=r3val, closures=cl_val, display='as_metadata_key::Sealed for MetadataKey::remove')
     u.fn(MP, 'get_all', within=WK, nth=0, sig_edits=ga, display='as_metadata_key::Sealed for MetadataKey::get_all')
     u.fn(MP, 'get_mut', within=WK, nth=0, body_edits=r3mut, closures=cl_mut, display='as_metadata_key::Sealed for MetadataKey::get_mut')
+    mdentry.entry_fn(u, WK, 'MetadataKey', False)
     u.close('}')
     u._emit('''impl<VE: ValueEncoding> into_metadata_key::Sealed<VE> for MetadataKey<VE> {
     open spec fn key_name(&self) -> Seq<char> { self.inner@ }
@@ -317,31 +353,35 @@ def build():
     u.close('}')
     u._emit('''impl<'k, VE: ValueEncoding> as_metadata_key::Sealed<VE> for &'k MetadataKey<VE> {
     open spec fn key_name(&self) -> Seq<char> { self.inner@ }
-    open spec fn key_ok(&self) -> bool { true }''')
+    open spec fn key_ok(&self) -> bool { true }
+    open spec fn key_inv(&self) -> bool { self.wf() }''')
     u._open_header = "impl<'k, VE: ValueEncoding> as_metadata_key::Sealed<VE> for &'k MetadataKey<VE> {"
     u.fn(MP, 'get', within=WR, nth=0, body_edits=r3ref, closures=cl_ref, display='as_metadata_key::Sealed for &MetadataKey::get')
     u.fn(MP, 'remove', within=WR, nth=0, body_edits=r3val, closures=cl_val, display='as_metadata_key::Sealed for &MetadataKey::remove')
     u.fn(MP, 'get_all', within=WR, nth=0, sig_edits=ga, display='as_metadata_key::Sealed for &MetadataKey::get_all')
     u.fn(MP, 'get_mut', within=WR, nth=0, body_edits=r3mut, closures=cl_mut, display='as_metadata_key::Sealed for &MetadataKey::get_mut')
+    mdentry.entry_fn(u, WR, '&MetadataKey', False)
     u.close('}')
     for ty, hdr_ty, disp in (('String', 'String', 'String'), ("&'k String", '&String', '&String')):
         lt = "<'k, VE: ValueEncoding>" if "'k" in ty else '<VE: ValueEncoding>'
         u._emit('''impl%s as_metadata_key::Sealed<VE> for %s {
-    open spec fn key_name(&self) -> Seq<char> { self@ }
-    open spec fn key_ok(&self) -> bool { VE::valid_key(self@) }''' % (lt, ty))
+    open spec fn key_name(&self) -> Seq<char> { lower(self@) }
+    open spec fn key_ok(&self) -> bool { VE::valid_key(self@) }
+    open spec fn key_inv(&self) -> bool { true }''' % (lt, ty))
         u._open_header = 'impl%s as_metadata_key::Sealed<VE> for %s {' % (lt, ty)
         WT = 'impl<VE: ValueEncoding> Sealed<VE> for %s' % hdr_ty
-        u.fn(MP, 'get', within=WT, nth=0, body_edits=r3ref, closures=cl_ref, display='as_metadata_key::Sealed for %s::get' % disp)
-        u.fn(MP, 'remove', within=WT, nth=0, body_edits=r3val, closures=cl_val, display='as_metadata_key::Sealed for %s::remove' % disp)
-        u.fn(MP, 'get_all', within=WT, nth=0, sig_edits=ga, display='as_metadata_key::Sealed for %s::get_all' % disp)
-        u.fn(MP, 'get_mut', within=WT, nth=0, body_edits=r3mut, closures=cl_mut, display='as_metadata_key::Sealed for %s::get_mut' % disp)
+        u.fn(MP, 'get', within=WT, nth=0, body_edits=r3ref, closures=cl_ref, body_start='        proof { VE::law_case(self@); }', display='as_metadata_key::Sealed for %s::get' % disp)
+        u.fn(MP, 'remove', within=WT, nth=0, body_edits=r3val, closures=cl_val, body_start='        proof { VE::law_case(self@); }', display='as_metadata_key::Sealed for %s::remove' % disp)
+        u.fn(MP, 'get_all', within=WT, nth=0, sig_edits=ga, body_start='        proof { VE::law_case(self@); }', display='as_metadata_key::Sealed for %s::get_all' % disp)
+        u.fn(MP, 'get_mut', within=WT, nth=0, body_edits=r3mut, closures=cl_mut, body_start='        proof { VE::law_case(self@); }', display='as_metadata_key::Sealed for %s::get_mut' % disp)
+        mdentry.entry_fn(u, WT, disp, True)
         u.close('}')
 
     u._emit('impl MetadataMap {'); u._open_header = 'impl MetadataMap {'
     for name, enc in [('get', 'Ascii'), ('get_bin', 'Binary')]:
-        u.fn(MP, name, within='impl MetadataMap', nth=0,
+        u.fn(MP, name, within='impl MetadataMap', nth=0, requires=['key.key_inv()'],
              ensures=[
-                 Clause('G1_typed_accessor_never_crosses_the_partition', 'r is Some ==> key.key_ok() && self.headers@.contains_key(key.key_name())'),
+                 Clause('G1_typed_accessor_never_crosses_the_partition', 'r is Some ==> <%s as ValueEncoding>::valid_key(key.key_name()) && self.headers@.contains_key(key.key_name())' % enc),
                  Clause('G2_first_value', 'r matches Some(v) ==> v.inner@ == self.headers@[key.key_name()][0]'),
                  Clause('G3_none_only_if_absent_or_wrong_kind', 'r is None ==> !key.key_ok() || !self.headers@.contains_key(key.key_name())'),
              ])
@@ -351,10 +391,11 @@ def build():
     for name in ['append', 'append_bin']:
         u.fn(MP, name, within='impl MetadataMap', nth=0, requires=['key.key_ok()'],
              ensures=[Clause('I2_appends_after_existing_values_same_key', 'final(self).headers@ == hmap_append(old(self).headers@, key.key_name(), value.inner@)')])
-    for name in ['remove', 'remove_bin']:
-        u.fn(MP, name, within='impl MetadataMap', nth=0,
+    for name, enc in [('remove', 'Ascii'), ('remove_bin', 'Binary')]:
+        u.fn(MP, name, within='impl MetadataMap', nth=0, requires=['key.key_inv()'],
              ensures=[Clause('I3_removes_only_that_key', 'key.key_ok() ==> final(self).headers@ == old(self).headers@.remove(key.key_name())'),
-                      Clause('I4_wrong_kind_is_a_no_op', '!key.key_ok() ==> final(self).headers@ == old(self).headers@ && r is None')])
+                      Clause('I4_wrong_kind_is_a_no_op', '!key.key_ok() ==> final(self).headers@ == old(self).headers@ && r is None'),
+                      Clause('I5_an_entry_of_the_other_side_is_never_removed', '!<%s as ValueEncoding>::valid_key(key.key_name()) ==> final(self).headers@ == old(self).headers@ && r is None' % enc)])
     u.fn(MP, 'merge', within='impl MetadataMap', ensures=[Clause('M1_union_other_wins', 'final(self).headers@ == old(self).headers@.union_prefer_right(other.headers@)', ['C08', 'C02'])])
     u.close('}')
 
@@ -364,10 +405,10 @@ def build():
     u.item(MP, 'struct', 'GetAll', edits=tyed, attrs=['#[verifier::reject_recursive_types(VE)]'])
     u.item(MP, 'struct', 'ValueIter', edits=tyed, attrs=['#[verifier::reject_recursive_types(VE)]'])
     u._emit('impl MetadataMap {'); u._open_header = 'impl MetadataMap {'
-    for name in ('get_all', 'get_all_bin'):
-        u.fn(MP, name, within='impl MetadataMap', nth=0,
+    for name, enc in (('get_all', 'Ascii'), ('get_all_bin', 'Binary')):
+        u.fn(MP, name, within='impl MetadataMap', nth=0, requires=['key.key_inv()'],
              ensures=[Clause('A1_every_value_of_the_key_in_order_and_never_across_the_partition',
-                             '(r.inner is Some <==> key.key_ok()) && (r.inner matches Some(g) ==> g.vals@ == values_at(self.headers@, key.key_name()))')])
+                             '(r.inner is Some <==> key.key_ok()) && (r.inner is Some ==> <%s as ValueEncoding>::valid_key(key.key_name())) && (r.inner matches Some(g) ==> g.vals@ == values_at(self.headers@, key.key_name()))' % enc)])
     u.close('}')
     u._emit("impl<'a, VE: ValueEncoding> GetAll<'a, VE> {"); u._open_header = "impl<'a, VE: ValueEncoding> GetAll<'a, VE> {"
     u.fn(MP, 'iter', within="impl<'a, VE: ValueEncoding> GetAll<'a, VE>", display='GetAll::iter',
@@ -385,9 +426,9 @@ def build():
                 && final(self).inner is Some && final(self).inner->Some_0.rest@ == old(self).inner->Some_0.rest@.skip(1))'''),
                   Clause('A4_end', '(old(self).inner is None || old(self).inner->Some_0.rest@.len() == 0) ==> r is None')])
     u._emit('impl MetadataMap {'); u._open_header = 'impl MetadataMap {'
-    for name in ('get_mut', 'get_bin_mut'):
-        u.fn(MP, name, within='impl MetadataMap', nth=0,
-             ensures=[Clause('G1m_the_mutable_accessor_never_crosses_the_partition', 'r is Some ==> key.key_ok() && old(self).headers@.contains_key(key.key_name())'),
+    for name, enc in (('get_mut', 'Ascii'), ('get_bin_mut', 'Binary')):
+        u.fn(MP, name, within='impl MetadataMap', nth=0, requires=['key.key_inv()'],
+             ensures=[Clause('G1m_the_mutable_accessor_never_crosses_the_partition', 'r is Some ==> <%s as ValueEncoding>::valid_key(key.key_name()) && old(self).headers@.contains_key(key.key_name())' % enc),
                       Clause('G2m_first_value', 'r matches Some(v) ==> (*v).inner@ == old(self).headers@[key.key_name()][0]')])
     u.close('}')
     u.item(MP, 'enum', 'KeyAndMutValueRef')
@@ -467,4 +508,5 @@ def build():
                 }) && final(self).inner.rest@ == old(self).inner.rest@.skip(1))'''),
              Clause('V2_end', 'old(self).inner.rest@.len() == 0 ==> r is None'),
          ])
+    mdentry.api(u)
     return u
